@@ -29,9 +29,9 @@ P = {
          "Trusted: the monitored reader; faults enter only through the io.Reader.", "DESIGN.md §3 C07"),
  "C08": ("exploration", "differential monitor: same bytes under many io.Reader delivery schedules must give identical outcomes",
          "Each input is loaded under all-at-once and under fixed/random/short/data+EOF schedules (and bufio/short-count readers for the ICC reader); success, metadata, ICC bytes, header fields, tags and description must agree.",
-         "Trusted: schedules conform to the io.Reader contract (never 0,nil).", "DESIGN.md §3 C08"),
+         "Trusted: schedules conform to the io.Reader contract (0, nil only in the two zero-nil schedules, which the contract allows and defines as \"nothing happened\").", "DESIGN.md §3 C08"),
  "C09": ("exploration", "resource monitors (allocation delta, thread CPU time, reads after EOF) + recover() around every public call, in watchdog-supervised child processes, over a field-value matrix, structure-aware mutation and all truncations",
-         "Hostile inputs drive Load -> ICCProfile -> Description and ReadProfile -> Description; a recovered panic, allocation above 1 MiB + 8192*n, or CPU above 2 s + 2 us*n is a violation; a dead/hung child is attributed to the logged case and replayed alone.",
+         "Hostile inputs drive Load -> ICCProfile -> Description and ReadProfile -> Description; a recovered panic, allocation above 2 MiB + 16384*n per call chain, or CPU above 2 s + 2 us*n is a violation; a dead/hung child is attributed to the logged case and replayed alone.",
          "Trusted: runtime.MemStats, getrusage(RUSAGE_THREAD).", "DESIGN.md §3 C09"),
  "C10": ("exploration", "reference-model monitor: independent per-pixel image semantics compared byte-for-byte incl. canary-filled parents; second pass under the race detector",
          "Cross product of source types x destination types x geometries x parallelisms x transforms; every byte of the destination parent buffer is compared with a model built from At/Set.",
